@@ -47,8 +47,11 @@ type Op struct {
 	// Fault: while this call runs, writes that take a file beyond FaultAt bytes fail with
 	// EFBIG (RLIMIT_FSIZE; directories and empty files can still be created, files can be
 	// opened, truncated and closed): the disk is full / a quota is hit during this call only
-	Fault   bool  `json:"fault,omitempty"`
-	FaultAt int64 `json:"fault_at,omitempty"`
+	// JSONCfg: the Config of this call carries the JSON format option (MatchJSON and
+	// MatchStandaloneJSON then format with it instead of the defaults)
+	JSONCfg *snaps.JSONConfig `json:"json_cfg,omitempty"`
+	Fault   bool              `json:"fault,omitempty"`
+	FaultAt int64             `json:"fault_at,omitempty"`
 }
 
 func (o Op) standalone() bool { return o.API == "ssnap" || o.API == "sjson" }
@@ -77,7 +80,7 @@ type Sess struct {
 	ZeroConfigs bool
 	// called before every step of a simulated process (foreign edits between calls)
 	BeforeStep func(o Op)
-	Mode vkit.Mode // mode of the simulated process that is running
+	Mode       vkit.Mode // mode of the simulated process that is running
 	// Sub: the snapshot directory is Root/Sub and does not exist until a call creates it
 	// (may contain `%`); "" = Root itself, which exists
 	Sub string
@@ -250,7 +253,10 @@ func (s *Sess) config(o Op) *snaps.Config {
 	// way a package-level `var cfg = snaps.WithConfig(...)` is used by every test and
 	// every entry point (fresh Configs per call hide calls that write to their receiver)
 	if s.ShareConfigs {
-		k := fmt.Sprintf("%q|%q|%v", o.File, o.Ext, o.Upd != nil && *o.Upd)
+		k := fmt.Sprintf("%q|%q|%v|%v", o.File, o.Ext, o.Upd != nil && *o.Upd, o.JSONCfg)
+		if o.JSONCfg != nil {
+			k += fmt.Sprintf("|%+v", *o.JSONCfg)
+		}
 		if o.Upd == nil {
 			k += "|unset"
 		}
@@ -277,6 +283,9 @@ func (s *Sess) buildConfig(o Op) *snaps.Config {
 	}
 	if o.Upd != nil {
 		opts = append(opts, snaps.Update(*o.Upd))
+	}
+	if o.JSONCfg != nil {
+		opts = append(opts, snaps.JSON(*o.JSONCfg))
 	}
 	if s.ZeroConfigs {
 		var c snaps.Config
@@ -326,7 +335,11 @@ func Formatted(o Op) (text, raw string) {
 	case "ssnap":
 		return o.Val.fmt(), o.Val.fmt()
 	case "json", "sjson":
-		text = strings.TrimSuffix(string(tpretty.PrettyOptions([]byte(o.Val.S), defaultJSONOpts)), "\n")
+		po := defaultJSONOpts
+		if o.JSONCfg != nil {
+			po = &tpretty.Options{Width: o.JSONCfg.Width, Indent: o.JSONCfg.Indent, SortKeys: o.JSONCfg.SortKeys}
+		}
+		text = strings.TrimSuffix(string(tpretty.PrettyOptions([]byte(o.Val.S), po)), "\n")
 		return text, text
 	case "yaml":
 		return o.Val.S, vkit.Escape(o.Val.S)
